@@ -1,0 +1,252 @@
+//! Runtime seam for the `baton` engine of the external model-checking harness (feature `verif`).
+//!
+//! The code under test calls the free functions of this module at its *visible operations*:
+//!
+//! * [`sched_point`] immediately **before** a hardware atomic (one call per real atomic
+//!   instruction, also inside CAS retry loops).  Metadata atomics are instrumented at the lowest
+//!   level they all go through -- `Address::{atomic_load, atomic_store, compare_exchange}` and the
+//!   `MetadataValue` implementations -- plus, for `fetch_update` loops (whose loop lives in
+//!   `std`), before the call (the initial load) and inside the closure (each compare-exchange);
+//!   `BlockPool` / `BlockQueue` counters and cursors are instrumented at their call sites;
+//! * [`yield_point`] once per iteration of a spin/retry loop that cannot make progress on its own
+//!   (the thread waits for another thread to change something);
+//! * [`lock_scope`] / [`upgrade_scope`] (or [`lock_acquire`] / [`lock_release`]) around a spin lock
+//!   that would really block while its holder is descheduled: the runtime models the lock
+//!   *logically* (the thread is simply not scheduled while the lock is unavailable), so the real
+//!   acquisition that follows is always uncontended;
+//! * [`cond_wait`] / [`cond_notify`] for condition variables (used by a `Mutex`/`Condvar` shim);
+//! * [`event`] for an optional event log.
+//!
+//! All of them are no-ops unless a [`Runtime`] has been registered with [`set_runtime`].  The
+//! runtime (which lives in the harness) additionally ignores calls made by threads that are not
+//! registered with it, and scheduling points whose class/address the current scenario has not
+//! *armed*.  Nothing here has behaviour of its own: without a runtime the crate behaves exactly as
+//! without the feature.
+
+use std::sync::OnceLock;
+
+/// What the calling thread is about to do.
+#[derive(Clone, Copy, PartialEq, Eq, Debug, Hash)]
+#[repr(u8)]
+pub enum Kind {
+    /// Atomic load through `Address::atomic_load` / `MetadataValue::load_atomic`, or the initial
+    /// load of a `fetch_update` loop (`addr` = the address accessed).
+    AtomicLoad = 0,
+    /// Atomic store through `Address::atomic_store` / `MetadataValue::store_atomic`.
+    AtomicStore = 1,
+    /// Compare-exchange through `Address::compare_exchange` / `MetadataValue::compare_exchange`,
+    /// or one compare-exchange of a `fetch_update` loop.
+    AtomicCas = 2,
+    /// Single-instruction read-modify-write (`MetadataValue::fetch_add/sub/and/or`).
+    AtomicRmw = 3,
+    /// Load of `BlockPool::count`.
+    PoolCountLoad = 8,
+    /// `fetch_add` / `fetch_sub` on `BlockPool::count`.
+    PoolCountRmw = 9,
+    /// Load of `BlockQueue::cursor`.
+    CursorLoad = 10,
+    /// Store to `BlockQueue::cursor`.
+    CursorStore = 11,
+    /// Compare-exchange on `BlockQueue::cursor` (each CAS of the `fetch_update` loop).
+    CursorCas = 12,
+    /// Anything else (free for future call sites).
+    Other = 13,
+}
+
+/// Coarse class of a scheduling point, used for arming.
+#[derive(Clone, Copy, PartialEq, Eq, Debug, Hash)]
+#[repr(u8)]
+pub enum Class {
+    /// Atomics on raw memory (side and in-header metadata ...): armed by address range.
+    Meta = 0,
+    /// `BlockPool` / `BlockQueue` atomics and rw-lock scopes: armed as a whole.
+    Pool = 1,
+    /// Mutexes and condition variables (sync shim): armed as a whole.
+    Sync = 2,
+    /// Everything else.
+    Other = 3,
+}
+
+impl Kind {
+    /// The class used for arming.
+    pub const fn class(self) -> Class {
+        match self {
+            Kind::AtomicLoad | Kind::AtomicStore | Kind::AtomicCas | Kind::AtomicRmw => Class::Meta,
+            Kind::PoolCountLoad
+            | Kind::PoolCountRmw
+            | Kind::CursorLoad
+            | Kind::CursorStore
+            | Kind::CursorCas => Class::Pool,
+            Kind::Other => Class::Other,
+        }
+    }
+
+    /// Whether the operation can modify memory.
+    pub const fn is_write(self) -> bool {
+        !matches!(
+            self,
+            Kind::AtomicLoad | Kind::PoolCountLoad | Kind::CursorLoad
+        )
+    }
+}
+
+/// Mode of a logical lock operation.
+#[derive(Clone, Copy, PartialEq, Eq, Debug, Hash)]
+#[repr(u8)]
+pub enum LockMode {
+    /// Exclusive mutex.
+    Mutex = 0,
+    /// Shared read access of a reader-writer lock.  `spin::RwLock` semantics: not granted while a
+    /// writer or an upgradeable reader holds the lock.
+    RwRead = 1,
+    /// Upgradeable read access: excludes writers and other upgradeable readers, tolerates
+    /// readers that are already in.
+    RwUpgradeable = 2,
+    /// Exclusive write access.
+    RwWrite = 3,
+    /// Upgrade of an upgradeable read access held by the caller to write access (waits for the
+    /// readers to leave).  Releasing in this mode releases the lock completely, as dropping the
+    /// write guard returned by `spin::RwLockUpgradableGuard::upgrade` does; the release of the
+    /// original upgradeable scope that follows is then ignored.
+    Upgrade = 4,
+}
+
+impl LockMode {
+    /// The class used for arming: reader-writer modes belong to `Pool`, mutexes to `Sync`.
+    pub const fn class(self) -> Class {
+        match self {
+            LockMode::Mutex => Class::Sync,
+            _ => Class::Pool,
+        }
+    }
+}
+
+/// The scheduler of the model-checking harness.
+pub trait Runtime: Send + Sync {
+    /// The calling thread is about to execute the visible operation `kind` on `addr`.
+    fn sched_point(&self, kind: Kind, addr: usize);
+    /// The calling thread is in a spin/retry loop and cannot make progress until another thread
+    /// changes something; called once per iteration.
+    fn yield_point(&self, addr: usize);
+    /// Returns when the calling thread logically holds lock `id` in `mode`.
+    fn lock_acquire(&self, id: usize, mode: LockMode);
+    /// The calling thread gives up lock `id` held in `mode` (never blocks).
+    fn lock_release(&self, id: usize, mode: LockMode);
+    /// Logically: release mutex `mutex`, wait for a notification on `cv`, re-acquire `mutex`.
+    /// Returns when the calling thread holds `mutex` again.  The caller really unlocks the
+    /// underlying mutex before the call and really locks it (uncontended) afterwards.
+    fn cond_wait(&self, cv: usize, mutex: usize);
+    /// Wake one (`all == false`) or all waiters of `cv`.
+    fn cond_notify(&self, cv: usize, all: bool);
+    /// Optional event log.
+    fn event(&self, name: &'static str, a: usize, b: usize);
+}
+
+static RUNTIME: OnceLock<&'static dyn Runtime> = OnceLock::new();
+
+/// Register the runtime (once per process).  Returns false if one was registered before.
+pub fn set_runtime(rt: &'static dyn Runtime) -> bool {
+    RUNTIME.set(rt).is_ok()
+}
+
+/// Whether a runtime has been registered.
+#[inline]
+pub fn has_runtime() -> bool {
+    RUNTIME.get().is_some()
+}
+
+/// See [`Runtime::sched_point`].
+#[inline]
+pub fn sched_point(kind: Kind, addr: usize) {
+    if let Some(rt) = RUNTIME.get() {
+        rt.sched_point(kind, addr)
+    }
+}
+
+/// See [`Runtime::yield_point`].
+#[inline]
+pub fn yield_point(addr: usize) {
+    if let Some(rt) = RUNTIME.get() {
+        rt.yield_point(addr)
+    }
+}
+
+/// See [`Runtime::lock_acquire`].
+#[inline]
+pub fn lock_acquire(id: usize, mode: LockMode) {
+    if let Some(rt) = RUNTIME.get() {
+        rt.lock_acquire(id, mode)
+    }
+}
+
+/// See [`Runtime::lock_release`].
+#[inline]
+pub fn lock_release(id: usize, mode: LockMode) {
+    if let Some(rt) = RUNTIME.get() {
+        rt.lock_release(id, mode)
+    }
+}
+
+/// See [`Runtime::cond_wait`].
+#[inline]
+pub fn cond_wait(cv: usize, mutex: usize) {
+    if let Some(rt) = RUNTIME.get() {
+        rt.cond_wait(cv, mutex)
+    }
+}
+
+/// See [`Runtime::cond_notify`].
+#[inline]
+pub fn cond_notify(cv: usize, all: bool) {
+    if let Some(rt) = RUNTIME.get() {
+        rt.cond_notify(cv, all)
+    }
+}
+
+/// See [`Runtime::event`].
+#[inline]
+pub fn event(name: &'static str, a: usize, b: usize) {
+    if let Some(rt) = RUNTIME.get() {
+        rt.event(name, a, b)
+    }
+}
+
+/// Scope guard of a logical lock: acquired on construction, released on drop.  Declare it on the
+/// line *before* the real guard, so that it is dropped after it.
+pub struct LockScope {
+    id: usize,
+    mode: LockMode,
+    active: bool,
+}
+
+/// Acquire logical lock `id` in `mode` for the lifetime of the returned guard.
+#[inline]
+pub fn lock_scope(id: usize, mode: LockMode) -> LockScope {
+    let active = has_runtime();
+    if active {
+        lock_acquire(id, mode);
+    }
+    LockScope { id, mode, active }
+}
+
+/// Upgrade the upgradeable read access the caller holds on `id` to write access for the lifetime
+/// of the returned guard (see [`LockMode::Upgrade`]).
+#[inline]
+pub fn upgrade_scope(id: usize) -> LockScope {
+    lock_scope(id, LockMode::Upgrade)
+}
+
+impl Drop for LockScope {
+    #[inline]
+    fn drop(&mut self) {
+        if self.active {
+            lock_release(self.id, self.mode);
+        }
+    }
+}
+
+/// Address of a value, as the identity of a lock / counter.
+#[inline]
+pub fn addr_of<T>(x: &T) -> usize {
+    x as *const T as usize
+}
